@@ -285,13 +285,30 @@ pub fn options(_tier: Tier, w: &Arc<World>) -> Scn {
     if d.chance("opt.unknown.tail", 1, 5) {
         opts.push(("rollover".into(), "0".into()));
     }
+    // rarely: windows beyond 1 MiB on files beyond 1 MiB, options in either order
+    let mut big_len = None;
+    if d.chance("swarm.big_window", 1, 150) {
+        let (b, wz) = d.pick("swarm.big.shape", &[(16384usize, 80u64), (60000, 20), (8192, 200), (1428, 900)]);
+        opts.retain(|(k, _)| !["blksize", "windowsize"].contains(&k.to_ascii_lowercase().as_str()));
+        if d.chance("swarm.big.windowsize_first", 1, 2) {
+            opts.insert(0, ("windowsize".into(), wz.to_string()));
+            opts.push(("blksize".into(), b.to_string()));
+        } else {
+            opts.insert(0, ("blksize".into(), b.to_string()));
+            opts.push(("windowsize".into(), wz.to_string()));
+        }
+        big_len = Some(d.pick("swarm.big.len", &[1_600_000usize, (1 << 20) + 4321, 2_200_000]));
+    }
     // what a correct server will use if it acknowledges everything that is honourable
     let rec: Vec<(String, String)> = opts.iter().filter(|(k, _)| ["blksize", "timeout", "tsize", "windowsize"].contains(&k.to_ascii_lowercase().as_str())).map(|(k, v)| (k.to_ascii_lowercase(), v.clone())).collect();
     let all_ok = rec.iter().all(|(k, v)| numeric(v).map_or(false, |n| honourable(k, n) && n <= u64::MAX as u128));
     let expect_oack = !rec.is_empty() && all_ok;
     // keep the number of blocks moderate
     let eff_b: usize = if expect_oack { rec.iter().find(|(k, _)| k == "blksize").and_then(|(_, v)| numeric(v)).map(|x| x as usize).unwrap_or(512) } else { 512 };
-    let len = len.min(eff_b * 300);
+    let len = match big_len {
+        Some(l) if expect_oack => l,
+        _ => len.min(eff_b * 300),
+    };
     let data = Arc::new(content(len, 7));
     let tmo_s: u64 = if expect_oack { rec.iter().find(|(k, _)| k == "timeout").and_then(|(_, v)| numeric(v)).map(|x| x as u64).unwrap_or(5) } else { 5 };
     let mut fname = "data.bin";
